@@ -431,6 +431,11 @@ func c14One(ctx *core.Ctx, tag string, m *ref.Model, thorough bool) {
 					return
 				}
 			}
+			if !have {
+				// the wall-clock cap fell before the first execution for this (model, option, type order)
+				ctx.Cap("wall-clock cap inside a model (not all options and type orders printed)")
+				return
+			}
 			// order of declarations
 			et, er, ec, ep := c14ExpectedOrder(m, perm)
 			ot, or, oc, op := c14ObservedOrder(first)
